@@ -207,6 +207,9 @@ type Spec struct {
 	IDTokenKey      interface{} // nil => RSAKey(0)
 	RealBcrypt      bool
 	SecretClientsOK bool
+	// FositeSession: sessions created through World.Sess are fosite's own openid.DefaultSession instead of the
+	// harness type (only without JWT access tokens, which need a JWTSessionContainer).
+	FositeSession bool
 	// Minimal: a default-constructed Config (only the global secret is set), as in fosite's README quick start.
 	Minimal bool
 }
@@ -362,6 +365,20 @@ func NewWorld(sp Spec) *World {
 	return w
 }
 
+// Sess returns a fresh session for the integrator to hand to fosite: the harness type, or fosite's own
+// openid.DefaultSession when the world was built with FositeSession.
+func (w *World) Sess(subject string) fosite.Session {
+	if w.Spec.FositeSession && !w.Spec.JWTAccess {
+		now := Now().UTC()
+		return &openid.DefaultSession{
+			Claims:  &jwt.IDTokenClaims{Subject: subject, RequestedAt: now, AuthTime: now},
+			Headers: &jwt.Headers{},
+			Subject: subject,
+		}
+	}
+	return NewSess(subject)
+}
+
 func (w *World) ResetCalls() { w.Calls = nil; w.W.ResetSeq() }
 
 // HashSecret hashes a client secret with the configured hasher.
@@ -465,7 +482,7 @@ func (t *TokenResult) OK() bool { return t.Err.OK() && t.Access != "" }
 
 // TokenOpts: what the integrator does at the token endpoint.
 type TokenOpts struct {
-	Session *Sess
+	Session fosite.Session
 	// GrantAll: grant every requested scope / audience for the grant types
 	// where the integrator decides (client_credentials, password, jwt-bearer),
 	// as the README's token endpoint does.
@@ -480,7 +497,7 @@ func (w *World) Token(form url.Values, a Auth, o TokenOpts) (res *TokenResult) {
 	ctx := context.Background()
 	sess := o.Session
 	if sess == nil {
-		sess = NewSess("")
+		sess = w.Sess("")
 	}
 	func() {
 		ar, err := w.P.NewAccessRequest(ctx, r, sess)
@@ -529,7 +546,7 @@ func (w *World) Token(form url.Values, a Auth, o TokenOpts) (res *TokenResult) {
 
 // Consent: what the resource owner / integrator decides at the authorization endpoint.
 type Consent struct {
-	Session *Sess
+	Session fosite.Session
 	// Scopes / Audience to grant; nil => everything requested.
 	Scopes   []string
 	Audience []string
@@ -676,7 +693,7 @@ func (w *World) AuthorizeRaw(method, rawQuery string, form url.Values, c Consent
 	res.Granted = append(fosite.Arguments{}, ar.GetGrantedScopes()...)
 	sess := c.Session
 	if sess == nil {
-		sess = NewSess("user-1")
+		sess = w.Sess("user-1")
 	}
 	resp, err := w.P.NewAuthorizeResponse(ctx, ar, sess)
 	if err != nil {
@@ -714,7 +731,7 @@ func (w *World) PAR(form url.Values, a Auth) *PARResult {
 			w.P.WritePushedAuthorizeError(ctx, rw, ar, err)
 			return
 		}
-		resp, err := w.P.NewPushedAuthorizeResponse(ctx, ar, NewSess(""))
+		resp, err := w.P.NewPushedAuthorizeResponse(ctx, ar, w.Sess(""))
 		if err != nil {
 			res.Err = errInfo(err)
 			w.P.WritePushedAuthorizeError(ctx, rw, ar, err)
@@ -851,7 +868,7 @@ func (w *World) DeviceAuth(form url.Values, a Auth, c Consent) *DeviceResult {
 		// attached here as integration/helper_endpoints_test.go does.
 		sess := c.Session
 		if sess == nil {
-			sess = NewSess("")
+			sess = w.Sess("")
 		}
 		resp, err := w.P.NewDeviceResponse(ctx, dr, sess)
 		if err != nil {
